@@ -248,20 +248,27 @@ def apply(byte, op):
 
 def shards(tier, seed):
     specs = []
-    files = ["empty", "full", "full_noindex", "stream3"] if tier == "quick" else \
+    files = ["full", "stream3"] if tier == "quick" else \
         ["empty", "nodes", "full", "full_noindex", "full_noref", "ts", "schemas", "stream3", "stream2"]
     for fn in files:
         for li in range(len(LOADERS)):
+            if tier == "quick" and fn != "full" and li >= 2:
+                continue
             for k in range(4):
                 specs.append(dict(kind="prefix", file=fn, loader=li, k=k, n=4, _resumable=True))
-    sfiles = ["full", "empty", "stream3"] if tier == "quick" else files
+    sfiles = ["full", "stream3"] if tier == "quick" else files
     for fn in sfiles:
-        for li in (0, 1) if tier == "quick" else (0, 1, 2, 5):
+        if tier == "quick":
+            lis = (0, 1) if fn == "full" else (1,)
+        else:
+            lis = (0, 1, 2, 5)
+        for li in lis:
             nsh = 24
             for k in range(nsh):
                 specs.append(dict(kind="struct", file=fn, loader=li, k=k, n=nsh, full=(tier == "thorough" and li < 2),
                                   _resumable=True))
-                specs.append(dict(kind="data", file=fn, loader=li, k=k, n=nsh, _resumable=True))
+                if tier == "thorough" or fn == "full":
+                    specs.append(dict(kind="data", file=fn, loader=li, k=k, n=nsh, _resumable=True))
     if tier == "thorough":
         for k in range(32):
             specs.append(dict(kind="descpairs", file="full", loader=1, k=k, n=32, _resumable=True))
